@@ -21,7 +21,7 @@ pub fn def() -> PropDef {
     PropDef {
         id: "C05",
         level: "exploration",
-        rule: "every replica state reachable by offering a subset of a two-author universe over keys {'',a,a\\xff,a\\xff\\xff,ab,b,b\\x00,\\xff,\\xff\\xff} (children offered before parents so that prefix deletion leaves stale by-key index rows) x the full product query kind {flat author-key, flat key-author, latest-per-key} x author filter {any,A1,A2,unknown} x key filter {any, exact k, prefix p} x direction x include-empty x window {offset 0,1,2 x limit none,0,1,2} + six windows at the ends of the number range (limit 2^64-1 with offsets 0,1; offset 2 with limit 2^64-2; offset 2^64-1 alone, with limit 2^64-1; offset 2^64-2 with limit 2), plus get_exact for every (author,key,include_empty); a further state holds an author whose id ends in 0xFF next to raw entries of byte-neighbouring author ids, queried with the whole product for author filter {any, that author}; one big state (two authors, 150 keys, 225 entries, markers) is queried with windows around 64, 150, 225 and 256 entries; family api: the big state and a sample of the small states are written and queried through the docs API of a real Engine (Doc::set_hash / del / get_many / get_exact: RPC actor, store actor, results streamed in chunks), all queries for the small states, windows around the stream's chunk size for the big one; the oracle is a list comprehension over the reference dump; non-trivial = the reference answer before offset/limit is non-empty and the query has a filter, a non-default order or a window",
+        rule: "every replica state reachable by offering a subset of a two-author universe over keys {'',a,a\\xff,a\\xff\\xff,ab,b,b\\x00,\\xff,\\xff\\xff} (children offered before parents so that prefix deletion leaves stale by-key index rows) x the full product query kind {flat author-key, flat key-author, latest-per-key} x author filter {any,A1,A2,unknown} x key filter {any, exact k, prefix p} x direction x include-empty x window {offset 0,1,2 x limit none,0,1,2} + six windows at the ends of the number range (limit 2^64-1 with offsets 0,1; offset 2 with limit 2^64-2; offset 2^64-1 alone, with limit 2^64-1; offset 2^64-2 with limit 2), plus get_exact for every (author,key,include_empty); a further state holds an author whose id ends in 0xFF next to raw entries of byte-neighbouring author ids, queried with the whole product for author filter {any, that author}; one big state (two authors, 150 keys, 225 entries, markers) is queried with windows around 64, 150, 225 and 256 entries; family api: the big state and a sample of the small states are written and queried through the docs API of a real Engine (Doc::set_hash / del / get_many / get_exact: RPC actor, store actor, results streamed in chunks), all queries for the small states, windows around the stream's chunk size for the big one, and twice read by a slow reader (a pause of 1.5 s, thorough 7 s, after three entries); the oracle is a list comprehension over the reference dump; non-trivial = the reference answer before offset/limit is non-empty and the query has a filter, a non-default order or a window",
         assumptions: &[
             "latest-per-key follows the statement and the API documentation: key filter before grouping, greatest timestamp among all authors, author filter after grouping; among several entries tied for the greatest timestamp any is accepted",
             "states hold at most 4 offered entries",
@@ -589,6 +589,36 @@ async fn api_state(node: &super::apifam::ApiNode, st: &State, queries: &[Q]) -> 
             Err(e) => bad.push(("api_query_equals_reference", Some(q.clone()), format!("Doc::get_many({q:?}) failed: {e}"))),
         }
     }
+    // a reader that takes its time: three entries, a pause, then the rest (the result is larger
+    // than what the stream buffers)
+    if dump.len() > 100 {
+        for q in [
+            Q { kind: Kind::FlatAuthorKey, af: AF::Any, kf: KF::Any, desc: false, include_empty: true, offset: 0, limit: None },
+            Q { kind: Kind::LatestPerKey, af: AF::Any, kf: KF::Any, desc: true, include_empty: true, offset: 5, limit: Some(120) },
+        ] {
+            let got: Result<Vec<Row>, String> = async {
+                let stream = doc.get_many(q.build()).await.map_err(|e| format!("{e:#}"))?;
+                tokio::pin!(stream);
+                let mut v = vec![];
+                while let Some(item) = stream.next().await {
+                    let e = item.map_err(|e| format!("{e:#}"))?;
+                    v.push((e.author().to_bytes(), e.key().to_vec(), e.timestamp(), *e.content_hash().as_bytes(), e.content_len()));
+                    if v.len() == 3 {
+                        tokio::time::sleep(std::time::Duration::from_millis(slow_reader_pause_ms())).await;
+                    }
+                }
+                Ok(v)
+            }
+            .await;
+            let (accept, _) = reference(&dump, &q);
+            let accept_rows: Vec<Vec<Row>> = accept.iter().map(|l| l.iter().map(row).collect()).collect();
+            match got {
+                Ok(g) if accept_rows.contains(&g) => {}
+                Ok(g) => bad.push(("api_query_equals_reference", Some(q.clone()), format!("Doc::get_many({q:?}) read slowly (a pause of {} ms after three entries) returned {} entries, the reference has {}", slow_reader_pause_ms(), g.len(), accept_rows[0].len()))),
+                Err(e) => bad.push(("api_query_equals_reference", Some(q.clone()), format!("Doc::get_many({q:?}) read slowly failed: {e}"))),
+            }
+        }
+    }
     // point lookups
     for e in &dump {
         for include_empty in [true, false] {
@@ -603,6 +633,12 @@ async fn api_state(node: &super::apifam::ApiNode, st: &State, queries: &[Q]) -> 
     let _ = doc.close().await;
     let _ = api.drop_doc(ns_id(0)).await;
     bad
+}
+
+static SLOW_READER_MS: std::sync::atomic::AtomicU64 = std::sync::atomic::AtomicU64::new(1500);
+
+fn slow_reader_pause_ms() -> u64 {
+    SLOW_READER_MS.load(std::sync::atomic::Ordering::Relaxed)
 }
 
 fn big_state() -> State {
@@ -648,6 +684,7 @@ fn api_cases(tier: Tier) -> Vec<(State, Vec<Q>)> {
 }
 
 fn run_api_family(ctx: &Ctx, report: &mut Report) {
+    SLOW_READER_MS.store(if ctx.quick() { 1500 } else { 7000 }, std::sync::atomic::Ordering::Relaxed);
     let cases: Vec<(usize, (State, Vec<Q>))> = api_cases(ctx.tier).into_iter().enumerate().filter(|(i, _)| ctx.mine((1u64 << 40) + *i as u64)).collect();
     if cases.is_empty() {
         return;
